@@ -120,6 +120,13 @@ class Gen:
             self.w[self.next] = w
             self.next += 1
 
+    def ctor(self, ws):
+        self.lines.append(("ctor %d %s" % (len(ws), " ".join(map(B, ws)))).strip())
+        if not any(w < 0 for w in ws):
+            self.order = list(range(len(ws)))
+            self.w = dict(enumerate(ws))
+            self.next = len(ws)
+
     def upd(self, h=None, w=None):
         if h is None:
             h = self.pick()
@@ -221,6 +228,17 @@ def gen_random(rng, nops, mode):
     for _ in range(nops):
         n = len(g.order)
         k = rng.below(100)
+        if (len(g.lines) == 1 and rng.chance(1, 3)) or rng.chance(1, 150):
+            # the object under test becomes PDF(data, weights): empty / one-element / around the row boundaries; the
+            # history (adds first of all) continues on the constructed object
+            kk = rng.choice([0, 0, 1, 1, 2, 3, 4, 5, 8, 9, 16, 17])
+            ws = [g.wg(rng) for _ in range(kk)]
+            if ws and rng.chance(1, 10):
+                ws[0] = -1.0                                      # thrown by the first add: the old object stays
+            g.ctor(ws)
+            if rng.chance(1, 2):
+                g.add()
+            continue
         if k < (45 if n < grow else 15):
             g.add()
         elif k < 60:
@@ -420,6 +438,17 @@ def rescale(script, k):
                 return None
             t[-1] = B(w2)
             out.append(" ".join(t))
+        elif well_formed(t) and t[0] == "ctor":
+            ws = []
+            for x in t[2:]:
+                w = F(x)
+                if math.isnan(w) or math.isinf(w):
+                    return None
+                w2 = math.ldexp(w, k)
+                if math.isinf(w2) or math.ldexp(w2, -k) != w:
+                    return None
+                ws.append(B(w2))
+            out.append(" ".join(t[:2] + ws))
         else:
             out.append(ln)
     return out
@@ -462,7 +491,7 @@ def well_formed(t):
         return len(t) == 1
     if t[0] == "at":
         return len(t) == 2 and nat(t[1])
-    if t[0] == "bulk":
+    if t[0] in ("bulk", "ctor"):
         return len(t) >= 2 and nat(t[1]) and len(t) == 2 + int(t[1]) and all(bits(x) for x in t[2:])
     return False
 
@@ -669,6 +698,22 @@ class Oracle:
                 f = self.check_bulk(res, [int(x) for x in t[2:]], ws)
                 if f:
                     return f
+        if op == "ctor":
+            ws = [F(x) for x in t[2:]]
+            if any(w < 0 for w in ws):
+                exp = "err-neg"         # thrown by the constructor: the object under test stays the old one
+            else:                        # a fresh structure = clear + the adds, handles numbered from 0 again
+                self.spec, self.bits, self.next = {}, {}, 0
+                self.pre_mut()
+                for x, w in zip(t[2:], ws):
+                    self.spec[self.next] = w
+                    self.bits[self.next] = int(x)
+                    self.next += 1
+                    self.post_mut(w)
+                    self.rebudget(list(range(self.next)))     # budgets grow as with the n separate adds it is
+                exp = "ok"
+                mutated = True
+                self.bump("ctor:n=%s" % (len(ws) if len(ws) < 3 else "3+"))
         if op == "add":
             w = F(t[1])
             if w < 0:
